@@ -479,6 +479,70 @@ def lfn_conformance(wd, corrupt=False):
     return res
 
 
+ALIAS_CFG = """SPECIFICATION Spec
+CONSTANT HMAX = %d
+CONSTANT NL = %d
+CONSTANT NH = %d
+CONSTANT MaxExisting = %d
+CONSTANT Legacy = %s
+CONSTANT Gen = %s
+CONSTANT GenHashes <- %s
+INVARIANT Unique
+INVARIANT Bounded
+%s
+CHECK_DEADLOCK FALSE
+"""
+
+
+def mc_alias_gen(wd, rng, corrupt=False, only_replay=False):
+    """design-level model checking of the 8.3 alias generator (AliasGen: scan, generate, next_iteration) for every directory content over a small
+    universe (uniqueness, termination within HMAX iterations), and its binding to the code: the structured family of directories around the
+    wrap of the 16-bit hash (PREFIX~i row full or lacking one tail, rows of hashes 0xFFFE / 0xFFFF / 0x0000 empty, full or lacking one tail)
+    is built on a real volume from user-chosen 8.3 names, a long name with that hash is created, and the alias the library chose is compared
+    with the model's"""
+    out = {"spec": "AliasGen", "ok": True, "states": 0, "distinct": 0}
+    if not only_replay:
+        for hmax, nl, nh, mx in ((4, 2, 2, 9), (3, 2, 3, 10)) + (((5, 3, 2, 12),) if core.tier() == "thorough" else ()):
+            r = core.mc_run("AliasGen", ALIAS_CFG % (hmax, nl, nh, mx, "{}", "FALSE", "NoHashes", "PROPERTY Terminates"), wd, "alias-%d" % hmax, workers=4)
+            if not r["ok"]:
+                raise core.ToolError("AliasGen model checking failed:\n" + r["out_tail"])
+            out["states"] += r["states"]
+            out["distinct"] += r["distinct"]
+            out.setdefault("runs", []).append({"HMAX": hmax, "NL": nl, "NH": nh, "MaxExisting": mx, "states": r["states"], "wall": r["wall"], "properties": ["Unique", "Bounded", "Terminates"]})
+    g = core.mc_run("AliasGen", ALIAS_CFG % (65536, 4, 9, 40, "{}", "TRUE", "WrapHashes", ""), wd, "alias-gen", workers=1, want_progs=True)
+    if not g["ok"]:
+        raise core.ToolError("AliasGen generation failed:\n" + g["out_tail"])
+    hists = g.pop("progs")
+    out["behaviours_generated"] = len(hists)
+    k = scale(160, 2400)
+    if len(hists) > k:
+        hists = rng.sample(hists, k)
+    names = {c: gen.names_with_hash(rng, 12, c) for c in (65534, 65535)}
+    progs = []
+
+    def alias_name(a):
+        return "WRAPAR~%d.TXT" % a[1] if a[0] == "L" else "WR%04X~%d.TXT" % (a[1], a[2])
+    for i, h in enumerate(hists):
+        ops = [{"op": "create_dir", "at": "", "path": "d", "as": "D"}]
+        for a in h["existing"]:
+            ops.append({"op": "create_file", "at": "D", "path": alias_name(a)})
+        want = alias_name(h["alias"])
+        raw = [ord(c) for c in want[:8]] + [ord(c) for c in "TXT"]
+        if corrupt:
+            raw[7] = raw[7] ^ 1
+        ops.append({"op": "create_file", "at": "D", "path": rng.choice(names[h["chk0"]]), "tag": {"alias": raw, "cmp": "both"}})
+        ops.append({"op": "unmount"})
+        progs.append({"id": "aliasgen-%d" % i, "cfg": gen.K("K3"), "ops": ops, "origin": "tlc:AliasGen"})
+    r = core.campaign("alias-gen", progs, wd, spec="TraceB", n_shards=8)
+    if r.tool_errors:
+        raise core.ToolError("AliasGen conformance replay failed:\n" + r.tool_errors[0])
+    drift = [t for t in r.notes if str(t[0]).startswith("B.")]
+    out["impl_model_conformance"] = {"behaviours": len(progs), "compared": len([t for t in r.infos if t[0] == "compared"]), "drift": len(drift), "drift_samples": [list(t) for t in drift[:3]]}
+    if drift and not corrupt:
+        print("NOTE: AliasGen no longer describes the code on %d of %d directories (model drift, not a violation): %s" % (len(drift), len(progs), drift[:2]))
+    return out, progs
+
+
 def units_str(u):
     return "".join(chr(x) for x in u)
 
@@ -955,8 +1019,14 @@ def c16():
     res = [("alias", core.campaign("alias", progs, wd, n_shards=14))]
     moves = [gen.alias_move_program(rng, "alias-move-%s-%d" % (k, i), gen.K(k), n=rng.choice([4, 8, 12])) for k in ("K2", "K3", "K5") for i in range(scale(6, 60))]
     res.append(("alias-move", core.campaign("alias-move", moves, wd)))
-    core.finish("C16", LEVEL, res, None, t0,
-                "directories populated with names colliding on the 6-character alias form, on the 2-character+checksum form (names searched for equal 16-bit "
+    # design level: the generator as a state machine (AliasGen) model-checked; the directories around the wrap of the hash replayed on the code
+    mc, aprogs = mc_alias_gen(wd, rng_for("C16", 41))
+    res.append(("mc-aliasgen", core.campaign("mc-aliasgen", aprogs, wd, n_shards=8)))
+    core.finish("C16", LEVEL, res, mc, t0,
+                "(0) TLC model-checks the alias generator (AliasGen: scan, generate, next_iteration) for every directory content over small universes: "
+                "the alias is not in the directory, the loop ends within HMAX iterations (liveness under fairness); the structured family of "
+                "directories around the wrap of the 16-bit hash is replayed on the library and the alias it chose compared with the model's; "
+                "(1) directories populated with names colliding on the 6-character alias form, on the 2-character+checksum form (names searched for equal 16-bit "
                 "name checksum), user names that look like aliases, non-ASCII and dotted/spaced names, with removals in between; for every created entry TLC "
                 "checks the alias is legal, unique in its directory and that every long-name slot carries its checksum",
                 ASSUME_TRACE)
@@ -1425,6 +1495,17 @@ def selftest(args):
         good = (not r["ok"]) and prop in r["violated"]
         ok = ok and good
         print("LfnReader Legacy=%-19s expected counterexample to %-12s %s" % (flag, prop, "ok" if good else "MISSED"))
+    for flag, prop in {"saturate": "Bounded", "bit_count": "Unique"}.items():
+        r = core.mc_run("AliasGen", ALIAS_CFG % (4, 2, 2, 9, '{"%s"}' % flag, "FALSE", "NoHashes", ""), wd, "alegacy")
+        good = (not r["ok"]) and prop in r["violated"]
+        ok = ok and good
+        print("AliasGen Legacy=%-20s expected counterexample to %-12s %s" % (flag, prop, "ok" if good else "MISSED"))
+    a0, _ = mc_alias_gen(wd, random.Random(7), only_replay=True)
+    a1, _ = mc_alias_gen(wd, random.Random(7), corrupt=True, only_replay=True)
+    good = a0["impl_model_conformance"]["drift"] == 0 and a0["impl_model_conformance"]["compared"] > 100 and a1["impl_model_conformance"]["drift"] == a1["impl_model_conformance"]["behaviours"]
+    ok = ok and good
+    print("AliasGen replay           %d aliases compared, drift %d; predicted alias falsified: drift %d of %d  %s"
+          % (a0["impl_model_conformance"]["compared"], a0["impl_model_conformance"]["drift"], a1["impl_model_conformance"]["drift"], a1["impl_model_conformance"]["behaviours"], "ok" if good else "MISSED"))
     l0 = lfn_conformance(wd)
     l1 = lfn_conformance(wd, corrupt=True)
     good = all(v["compared"] > 8000 and v["drift"] == 0 for v in l0["builds"].values()) and all(v["drift"] > 5000 for v in l1["builds"].values())
